@@ -185,7 +185,7 @@ def main():
     a = ap.parse_args()
     r = run(a.repo, a.build, a.twin)
     build = a.build or os.path.join(VERIF, "build")
-    json.dump(r, open(os.path.join(build, "result%s.json" % (".twin" if a.twin else "")), "w"), indent=1)
+    json.dump(r, open(os.path.join(build, "result%s.json" % ("_twin" if a.twin else "")), "w"), indent=1)
     print("status:", r["status"], "| gen %.1fs" % r["gen_s"], "| verus %.1fs" % r.get("verus_s", 0),
           "| verified:", r.get("verified"), "errors:", r.get("verus_errors"))
     if not r["gen_ok"]:
